@@ -22,7 +22,11 @@ func (f *frame) setResults(x *ssa.Call, rs []sval) {
 	case 0:
 		f.vals[x] = sval{typ: x.Type()}
 	case 1:
-		f.setVal(x, rs[0])
+		if rs[0].e == nil {
+			f.vals[x] = rs[0]
+		} else {
+			f.setVal(x, rs[0])
+		}
 	default:
 		// tuple: every component becomes a register cell
 		var out []sval
@@ -153,6 +157,9 @@ func (f *frame) inline(callee *ssa.Function, args []sval, binds []sval, deferred
 	t.cur.Goto(entry)
 	nf.translateBody(entry)
 	t.cur = nf.retBlock
+	for i, lv := range nf.resLv {
+		out[i] = sval{typ: out[i].typ, lv: lv}
+	}
 	return out
 }
 
@@ -273,7 +280,9 @@ func (f *frame) builtin(bi *ssa.Builtin, c *ssa.CallCommon) []sval {
 	case "print", "println":
 		return nil
 	case "close":
-		fail("outside subset: close(chan)")
+		t.cur.Assert(False, "subset/unreachable-close-chan", t.fc.Props)
+		t.cur.Assume(False)
+		return nil
 	}
 	fail("unsupported builtin %s", bi.Name())
 	return nil
@@ -282,6 +291,19 @@ func (f *frame) builtin(bi *ssa.Builtin, c *ssa.CallCommon) []sval {
 // memUpdate: mem' agrees with old outside [lo,hi) and with gen(a) inside.
 func (t *fnTrans) memUpdate(mem *Cell, lo, hi Expr, gen func(old Expr, a Expr) Expr) {
 	th := t.th
+	// constant small length: an explicit chain of stores (no quantifier)
+	if !th.bv && gen != nil {
+		if n, ok := litInt(simplifyDiff(hi, lo)); ok && n.Sign() >= 0 && n.Int64() <= 16 {
+			old := t.newTemp("memold", mem)
+			var e Expr = old
+			for i := int64(0); i < n.Int64(); i++ {
+				a := th.AAdd(lo, th.AddrLit(i))
+				e = Store(e, a, gen(old, a))
+			}
+			t.cur.Assign(mem, e)
+			return
+		}
+	}
 	old := t.newTemp("memold", mem)
 	t.cur.Havoc(mem)
 	a := &Var{"a!c", th.Addr()}
@@ -468,6 +490,10 @@ func (f *frame) contractCall(fc *FuncContract, callee *ssa.Function, args []sval
 		}
 		for _, m := range ms {
 			snap(m.heap)
+		}
+		if !fc.Pure {
+			snap(t.allocTop())
+			snap(t.objTop())
 		}
 		// havoc
 		byMem := map[string][]wr{}
@@ -679,3 +705,24 @@ func (f *frame) siteAsserts(x *ssa.Call) {
 		}
 	}
 }
+
+// simplifyDiff: hi - lo when hi is syntactically lo + c (or both literal).
+func simplifyDiff(hi, lo Expr) Expr {
+	if h, ok := litInt(hi); ok {
+		if l, ok := litInt(lo); ok {
+			return BigLit(new(big.Int).Sub(h, l))
+		}
+	}
+	if a, ok := hi.(*App); ok && a.Op == "+" && len(a.Args) == 2 {
+		if Print(RenameCells(a.Args[0], cellAsVar)) == Print(RenameCells(lo, cellAsVar)) {
+			return a.Args[1]
+		}
+		// (lo' + x) + c with lo == lo' + x
+		if inner, ok := a.Args[0].(*App); ok && inner.Op == "+" {
+			_ = inner
+		}
+	}
+	return mk("-", SInt, hi, lo)
+}
+
+func cellAsVar(c *Cell) Expr { return &Var{"<" + c.Name + ">", c.S} }
